@@ -489,6 +489,12 @@ func (e *Engine) Enumerate(fn *ssa.Function) []*Obligation {
 					}
 				}
 			case *ssa.Panic:
+				// the panic go/ssa emits for a blocking select that matched no case is unreachable by construction
+				if mi, ok := x.X.(*ssa.MakeInterface); ok {
+					if k, isK := mi.X.(*ssa.Const); isK && k.Value != nil && strings.Contains(k.Value.ExactString(), "blocking select matched no case") {
+						continue
+					}
+				}
 				add(in, "terminator", "panic", Ineq{Const(-1), "explicit panic"})
 			case ssa.CallInstruction:
 				if e.Extra != nil {
@@ -691,6 +697,50 @@ func (e *Engine) liftable(c *fnCtx, at ssa.Instruction, g Ineq) (Ineq, bool) {
 	}
 	if sg, ok := e.strengthenToParams(c, g); ok && paramRooted(c.fn, sg.L) {
 		return sg, true
+	}
+	// a goal over one loop phi: when the goal is inductive over the back edges, it holds as soon
+	// as it holds for the value the loop is entered with; that entry goal may be liftable
+	for a, coef := range g.L.C {
+		ph, ok := a.Root.(*ssa.Phi)
+		if !ok || a.Kind != 'v' || a.Path != "" || ph.Parent() != c.fn {
+			continue
+		}
+		if !(ph.Block() == at.Block() || ph.Block().Dominates(at.Block())) {
+			continue
+		}
+		var entry ssa.Value
+		nEntry := 0
+		inductive := true
+		for i, edge := range ph.Edges {
+			pred := ph.Block().Preds[i]
+			back := ph.Block() == pred || ph.Block().Dominates(pred)
+			if !back {
+				entry = edge
+				nEntry++
+				continue
+			}
+			sub := g.L.Clone()
+			delete(sub.C, a)
+			sub = sub.Add(c.lin(edge).Scale(coef))
+			term := pred.Instrs[len(pred.Instrs)-1]
+			if ok, _ := e.proveAtEdge(c, term, pred, ph.Block(), Ineq{sub, g.Why}, []Ineq{{g.L, "induction hypothesis"}}, 1); !ok {
+				inductive = false
+				break
+			}
+		}
+		if !inductive || nEntry != 1 {
+			continue
+		}
+		sub := g.L.Clone()
+		delete(sub.C, a)
+		sub = sub.Add(c.lin(entry).Scale(coef))
+		eg := Ineq{sub, g.Why + " (at loop entry)"}
+		if paramRooted(c.fn, eg.L) {
+			return eg, true
+		}
+		if sg, ok := e.strengthenToParams(c, eg); ok && paramRooted(c.fn, sg.L) {
+			return sg, true
+		}
 	}
 	return g, false
 }
